@@ -131,6 +131,9 @@ func (m *UnsubscribeMessage) Decode(src []byte) (int, error) {
 	m.packetID = src[total : total+2]
 	total += 2
 
+	// The message may have been decoded into before.
+	m.topics = nil
+
 	remlen := int(m.remlen) - (total - hn)
 	for remlen > 0 {
 		t, n, err := readLPBytes(src[total:])
